@@ -80,7 +80,7 @@ Record filt := {
 }.
 
 Definition filt_value (f:filt) : value xval :=
-  VStruct "Filter" [("NoNewPrivs", VBool (f_nnp f)); ("Flag", VNum (f_flag f)); ("Policy", VExt (XPolicy (f_prog f)))].
+  VStruct "Filter" [("Flag", VNum (f_flag f)); ("NoNewPrivs", VBool (f_nnp f)); ("Policy", VExt (XPolicy (f_prog f)))].
 
 (** what LoadFilter returned *)
 Inductive lres := LNil | LErr | LStuck.
